@@ -12,30 +12,22 @@
 (* A duration is <<months, days, sec, ns>> with the same normalisation of the  *)
 (* fixed part (days any integer), or NAT.  A time of day is <<sec, ns>>.       *)
 (***************************************************************************)
-EXTENDS Integers, Sequences, TLC
+EXTENDS Integers, Sequences, TLC, TimeIdx
 
 NAT == <<"NaT">>
 IsNat(x) == x = NAT
 
-NS == 1000000000
-SECS_PER_DAY == 86400
-
+\* NS, SECS_PER_DAY, UnitNs, NormInst, NormDur, TruncToUnit, TruncSecs / TruncDays / TruncNs are TimeIdx.tla's:
+\* TimeProof.tla proves the month-free laws below for EVERY instant and duration with the TLA+ proof system
 Units == {"s", "ms", "us", "ns"}
-UnitNs(u) == CASE u = "s" -> NS [] u = "ms" -> 1000000 [] u = "us" -> 1000 [] u = "ns" -> 1
 \* rank: larger = coarser
 Rank(u) == CASE u = "s" -> 3 [] u = "ms" -> 2 [] u = "us" -> 1 [] u = "ns" -> 0
 Coarser(u, v) == IF Rank(u) >= Rank(v) THEN u ELSE v
 
 (* ---- instants -------------------------------------------------------------------- *)
 
-\* carry ns into sec and sec into day (\div floors, % is non-negative)
-NormInst(d, s, n) ==
-    LET s1 == s + (n \div NS)
-        n1 == n % NS
-    IN  <<d + (s1 \div SECS_PER_DAY), s1 % SECS_PER_DAY, n1>>
-
 \* the instant as representable at unit u: low digits dropped (toward the past)
-ToUnit(t, u) == IF IsNat(t) THEN NAT ELSE <<t[1], t[2], (t[3] \div UnitNs(u)) * UnitNs(u)>>
+ToUnit(t, u) == IF IsNat(t) THEN NAT ELSE TruncToUnit(t, u)
 
 \* C16: converting U -> T denotes the instant at the coarser of the two resolutions
 Convert(t, u, v) == ToUnit(ToUnit(t, u), v)
@@ -82,8 +74,6 @@ Fields(t) == LET c == CivilFromDays(t[1]) IN
 
 (* ---- durations ------------------------------------------------------------------------ *)
 
-NormDur(mo, d, s, n) ==
-    LET s1 == s + (n \div NS) IN <<mo, d + (s1 \div SECS_PER_DAY), s1 % SECS_PER_DAY, n % NS>>
 DAdd(a, b) == IF IsNat(a) \/ IsNat(b) THEN NAT ELSE NormDur(a[1] + b[1], a[2] + b[2], a[3] + b[3], a[4] + b[4])
 DNeg(a)    == IF IsNat(a) THEN NAT ELSE NormDur(-a[1], -a[2], -a[3], -a[4])
 DSub(a, b) == DAdd(a, DNeg(b))
@@ -130,9 +120,7 @@ DiffAddsBack(a, b) == TAdd(b, TDiff(a, b)) = a
 
 \* truncation to a month-free duration that divides the day, a whole number of days, or a
 \* divisor of the second - the greatest multiple (counted from the epoch) not after t
-TruncSecs(t, q) == <<t[1], (t[2] \div q) * q, 0>>                 \* q seconds, q divides 86400
-TruncDays(t, k) == <<(t[1] \div k) * k, 0, 0>>                    \* k days
-TruncNs(t, q)   == <<t[1], t[2], (t[3] \div q) * q>>              \* q nanoseconds, q divides 10^9
+\* (TruncSecs / TruncDays / TruncNs: TimeIdx.tla)
 \* truncation to dm months, dm dividing 12: the first instant of the calendar period
 TruncMonths(t, dm) ==
     LET c == CivilFromDays(t[1])
